@@ -181,7 +181,7 @@ M("C09", "reset-cancels-pump", "async_spa_manager.py", "        \"\"\"Reset the 
 # --------------------------------------------------------------------------- C10
 M("C10", "locator-no-close", "async_locator.py", "            self._transport.close()\n", "", rule="R1")
 M("C10", "close-out-of-finally", "async_locator.py",
-  "        finally:\n            # Runs on cancellation too, so the endpoint and helper tasks never leak\n            _LOGGER.debug(\"Discovery complete, close transport\")", "        if True:\n            _LOGGER.debug(\"Discovery complete, close transport\")", rule="R2")
+  "        finally:\n            # Runs on cancellation too, so the endpoint and helper tasks never leak\n            _LOGGER.debug(\"Discovery complete, close transport\")", "        finally:\n            pass\n        if True:\n            _LOGGER.debug(\"Discovery complete, close transport\")", rule="R2")
 M("C10", "cancel-swallowed", "async_spa.py", "        except asyncio.CancelledError:\n            _LOGGER.debug(\"Ping loop cancelled\")\n            raise", "        except asyncio.CancelledError:\n            _LOGGER.debug(\"Ping loop cancelled\")", rule="R4")
 M("C10", "wrong-cancel-key", "async_spa.py", "self._taskman.cancel_key_tasks(\"SPA\")", "self._taskman.cancel_key_tasks(\"SPAX\")", rule="R3")
 M("C10", "new-task-key", "async_spa.py", "self._taskman.add_task(self._ping_loop(), \"Ping loop\", \"SPA\")", "self._taskman.add_task(self._ping_loop(), \"Ping loop\", \"BG\")", rule="R3")
@@ -432,3 +432,18 @@ M("C18", "pump-modes-edits-the-live-label-list", "automation/pump.py", "        
   "        modes = self._user_demand[\"options\"]\n        if \"OFF\" in modes:\n            modes.remove(\"OFF\")\n        return modes", rule="R10")
 M("C18", "pump-modes-filters-a-copy-twin", "automation/pump.py", "        return self._user_demand[\"options\"]",
   "        modes = self._user_demand[\"options\"]\n        return [m for m in modes] if modes is not None else modes", expect="silent")
+
+# --------------------------------------------------------------------------- round 12 rules
+M("C01", "statu-request-budget-in-the-signature", "driver/protocol/statusblock.py", "    def request(seq, start, length, **kwargs):", "    def request(seq, start, length, retry_count=GeckoConfig.PROTOCOL_RETRY_COUNT, **kwargs):", rule="R10")
+M("C04", "packet-parms-kept-while-the-address-is-the-same", "driver/protocol/packet.py", "        self._parms = (sender[0], sender[1], src_identifier, dest_identifier)",
+  "        if self._parms is None or tuple(self._parms[:2]) != (sender[0], sender[1]):\n            self._parms = (sender[0], sender[1], src_identifier, dest_identifier)", rule="R4")
+M("C08", "connect-finally-reads-the-spa", "async_spa_manager.py", "        finally:\n            await self._handle_event(\n                GeckoSpaEvent.CONNECTION_FINISHED, facade=self._facade\n            )",
+  "        finally:\n            if not self._spa.is_connected:\n                _LOGGER.warning(\"Connection sequence did not complete\")\n            await self._handle_event(\n                GeckoSpaEvent.CONNECTION_FINISHED, facade=self._facade\n            )", rule="I5")
+M("C09", "rf-error-also-while-connecting", "async_spa_manager.py", "        elif event == GeckoSpaEvent.ERROR_RF_ERROR:\n            if self._spa_state == GeckoSpaState.CONNECTED:",
+  "        elif event == GeckoSpaEvent.ERROR_RF_ERROR:\n            if self._spa_state in (GeckoSpaState.CONNECTING, GeckoSpaState.CONNECTED):", rule="R2")
+M("C12", "config-change-devices-extends-the-pump-list", "automation/async_facade.py", "        return self._pumps + self._blowers  # type: ignore", "        devices = self._pumps\n        devices += self._blowers\n        return devices", rule="R12")
+M("C12", "config-change-devices-extends-a-copy-twin", "automation/async_facade.py", "        return self._pumps + self._blowers  # type: ignore", "        devices = list(self._pumps)\n        devices += self._blowers\n        return devices", expect="silent")
+M("C15", "spa-name-accessor-asserts-truthiness", "driver/protocol/hello.py", "        assert self._spa_name is not None", "        assert self._spa_name, \"Last datagram was not a spa hello\"", rule="R9")
+M("C16", "socket-error-rewinds-the-counters", "driver/async_udp_protocol.py", "    def error_received(self, exc) -> None:", "    def error_received(self, exc) -> None:\n        self._sequence_counter_protocol = 0\n        self._sequence_counter_command = 191", rule="R3")
+M("C19", "statv-header-found-by-lstrip", "driver/protocol/statusblock.py", "        remainder = received_bytes[5:]\n        if received_bytes.startswith(STATU_VERB):", "        remainder = received_bytes.lstrip(STATU_VERB if received_bytes.startswith(STATU_VERB) else STATV_VERB)\n        if received_bytes.startswith(STATU_VERB):", rule="R3")
+M("C20", "version-answer-flagged-before-decode", "driver/protocol/version.py", "        # Otherwise must be SVERS\n        (", "        # Otherwise must be SVERS\n        self._should_remove_handler = True\n        (", rule="R5")
